@@ -4,9 +4,9 @@ CONSTANTS
   MsgKinds = {"explicit", "kwtemplate", "class"}
   Outs = {"T", "F", "CR", "MR"}
   DelayCls = {"P"}
-  Vals = {"o1", "o2"}
+  Vals = {"o1"}
   Depth = 3
-  MaxObjs = 3
+  MaxObjs = 2
   Variant = "impl"
 INVARIANT ExactlyOnce
 INVARIANT RightList
